@@ -1,3 +1,123 @@
-import Hive.Model.DerivedDriver
+import Hive.Proofs.DerivedSet
+import Hive.Proofs.DerivedCounter
+/-!
+# C14 — derived reactive values converge to their defining function
+
+Property theorems only.  Models: `Hive/Model/Derived*.lean` (ds/reactive: variable.go,
+variable_impl.go, set_impl.go, sorted_set_impl.go, counter_impl.go, wait_group_impl.go,
+eviction_state_impl.go, with the repairs listed in known_findings/C14.json).  Sequential theorems
+quantify over every call history; protocol theorems over every thread pool and every schedule.
+-/
 namespace Hive.Derived
+
+
+/-! ## DerivedSet / SubtractReactive -/
+
+/-- **DerivedSet = union of its current sources.** After every history of writes to the sources
+(`Add`, `Delete`, `Apply`, `Replace`), `InheritFrom` (also of a source that is already inherited,
+also re-adding a source that was unsubscribed) and unsubscriptions (each unsubscribe function called
+at most once), an element is in the derived set iff it is in the source of some live subscription. -/
+theorem C14_derived_set (ops : List DSOp) (hw : DS.init.wfRun ops) (x : Nat) :
+    (DS.init.run ops).value x = true ↔ (DS.init.run ops).union x :=
+  DS.value_iff_union _ (DS.inv_run _ ops DS.inv_init hw) x
+
+/-- The occurrence counts are exactly the number of live subscriptions whose source holds the element. -/
+theorem C14_derived_set_counts (ops : List DSOp) (hw : DS.init.wfRun ops) (x : Nat) :
+    (DS.init.run ops).count x = occ (DS.init.run ops).subs x ∧
+    ∀ sub ∈ (DS.init.run ops).subs, sub.live = true → sub.mirror x = (DS.init.run ops).mem sub.src x :=
+  ⟨(DS.inv_run _ ops DS.inv_init hw).count x, fun sub hs hl => (DS.inv_run _ ops DS.inv_init hw).mirror sub hs hl x⟩
+
+/-- Non-vacuity: a history with Replace, re-inheriting and unsubscribing satisfies the hypothesis. -/
+example : DS.init.wfRun [.write 0 (.apply [1, 2] []), .inherit 0, .write 0 (.replace [2, 3]), .inherit 1,
+    .write 1 (.apply [2] []), .unsub 0, .inherit 0, .unsub 1] := by
+  simp [DS.wfRun, DS.wfOp, DS.step, DS.init, subCallback, deliver]
+
+/-- Witness about the code as it was before the repair of the reactive `Replace` (036bec1): source
+`{1,2}` inherited, then `Replace({2,3})` reported as +{2,3} −{1,2}: the derived set loses the retained
+element 2 although it is in the source. -/
+theorem C14_derived_set_old_replace_witness :
+    let s := (DS.init.run [.write 0 (.apply [1, 2] []), .inherit 0]).stepOldReplace 0 [2, 3]
+    s.mem 0 2 = true ∧ s.value 2 = false ∧ s.value 3 = true := by
+  simp [DS.run, DS.step, DS.stepOldReplace, DS.init, deliver, subCallback, SrcOp.repAdded, SrcOp.repDeleted,
+    SrcOp.newMem, oldReplaceAdded, oldReplaceDeleted, setAt, applyBit, inheritBit, collectUp, collectDown]
+
+/-- **SubtractReactive = source minus the others.** After every history of writes to the source and
+to the subtracted sets, before and after the creation (initial contents are delivered at creation). -/
+theorem C14_subtract (ops : List SROp) (x : Nat) (hc : (SR.init.run ops).created = true) :
+    (SR.init.run ops).value x = (SR.init.run ops).diff x :=
+  SR.value_eq_diff _ (SR.inv_run _ ops SR.inv_init) hc x
+
+example : (SR.init.run [.write 0 (.apply [1, 2, 3] []), .write 1 (.apply [2] []), .create 0 [1, 2],
+    .write 2 (.replace [3, 4])]).created = true := by
+  simp [SR.run, SR.step, SR.init]
+
+/-! ## Counter -/
+
+/-- **Counter = number of monitored inputs that satisfy the condition**, for every condition and every
+history of `Set`, `Monitor` (also of the same input twice) and unsubscriptions. -/
+theorem C14_counter (cond : Int → Bool) (ops : List CTOp) :
+    ((CT.init cond).run ops).counter = (((CT.init cond).run ops).expected : Nat) :=
+  CT.counter_eq_expected _ (CT.inv_run _ ops (CT.inv_init cond))
+
+/-- Witness about the unrepaired `Monitor` (its unsubscribe function left the contribution in the
+counter): monitor an input, set it to 1, unsubscribe — counter 1, no monitored input. -/
+theorem C14_counter_old_unsubscribe_witness :
+    let s := (((CT.init (fun v => v != 0)).run [.monitor 0, .set 0 1]).stepOldUnmonitor 0)
+    s.counter = 1 ∧ s.expected = 0 := by
+  decide
+
+/-! ## EvictionState -/
+
+/-- **Exactly the events of slots up to the last evicted slot have triggered**: after every history
+of `EvictionEvent` / `Evict` calls (in any order, also evicting backwards), the real event handed out
+for a slot has triggered iff the slot is at or below the last evicted slot.  (For such slots new
+requests get the shared pre-triggered event: `C14_eviction_pre`.) -/
+theorem C14_eviction (ops : List EVOp) (slot : Nat) (hh : slot ∈ (EV.init.run ops).handed) :
+    slot ∈ (EV.init.run ops).trig ↔ (EV.init.run ops).evicted slot = true := by
+  have h := EV.inv_run _ ops EV.inv_init
+  constructor
+  · exact h.below slot
+  · intro he
+    rcases (h.handed slot).1 hh with h1 | h2
+    · have := h.above slot h1
+      simp [he] at this
+    · exact h2
+
+/-- Every slot gets at most one real event in its life. -/
+theorem C14_eviction_unique (ops : List EVOp) : (EV.init.run ops).handed.Nodup :=
+  (EV.inv_run _ ops EV.inv_init).nodup
+
+/-- `EvictionEvent` hands out the pre-triggered event exactly for evicted slots. -/
+theorem C14_eviction_pre (s : EV) (slot : Nat) : (s.step (.event slot)).2 = .pre ↔ s.evicted slot = true := by
+  simp only [EV.step]
+  split <;> rename_i h
+  · simp [h]
+  · split <;> simp [h]
+
+example : (EV.init.run [.event 3, .event 0, .evict 0, .event 0, .evict 5, .event 9, .evict 2]).handed = [9, 0, 3] := by
+  decide
+
+/-! ## WaitGroup, call by call -/
+
+/-- **Sequentially the WaitGroup has triggered iff some `Done` removed the last pending element**, and
+its counter equals the number of pending elements between calls (duplicates in `Add` are corrected). -/
+theorem C14_waitgroup_sequential (ops : List WGOp) :
+    (WG.init.run ops).trig = (WG.init.run ops).emptied ∧
+    (WG.init.run ops).counter = (WG.init.run ops).pending.length := by
+  suffices h : ∀ s : WG, s.trig = s.emptied → s.counter = s.pending.length →
+      (s.run ops).trig = (s.run ops).emptied ∧ (s.run ops).counter = (s.run ops).pending.length from
+    h WG.init rfl rfl
+  induction ops with
+  | nil => intro s h1 h2; exact ⟨h1, h2⟩
+  | cons op ops ih =>
+    intro s h1 h2
+    simp only [WG.run]
+    cases op with
+    | add xs =>
+      have := wgAddLoop_spec xs { s with counter := s.counter + xs.length } (by simp [h2])
+      exact ih _ (by simp only [WG.step]; rw [this.2.1, this.2.2]; exact h1) (by simp only [WG.step]; exact this.1)
+    | done xs =>
+      have := wgDoneLoop_spec xs s h2 h1
+      exact ih _ this.2 this.1
+
 end Hive.Derived
